@@ -28,7 +28,9 @@ package cty
 //@ func (cty.Value).RefineNotNull
 //@   trusted
 //@   ensures (and (= (vty result) (vty v)) (= (marks_of result) (marks_of v)) (wf_deep result))
+//@   requires (not (and (is_known v) (is_null v)))
 //@   ensures (=> (is_known v) (= result v))
+//@   ensures (not (is_null result))
 //@   ensures (=> (and (is_bool_ty (vty v)) (not (is_known v))) (not (is_known result)))
 //
 //@ func (cty.Value).HasIndex
